@@ -43,6 +43,9 @@ public:
         // The whole propagation algorithm is under the lock in order to ensure correctness
         // in case of concurrent state changes at the different levels of the context tree.
         threads_list_mutex_type::scoped_lock lock(my_threads_list_mutex);
+        // A thread binding a new context (see bind_to_impl) falls back to this mutex when it detects
+        // a concurrent state propagation, so it must be held for the whole propagation.
+        context_state_propagation_mutex_type::scoped_lock propagation_lock(the_context_state_propagation_mutex);
         // TODO: consider to use double-check idiom
         if ((src.*mptr_state).load(std::memory_order_relaxed) != new_state) {
             // Another thread has concurrently changed the state. Back down.
